@@ -387,9 +387,245 @@ def extract_mapping(src_root):
                           ast.unparse(n.value) == "sequence.code" for n in ast.walk(fn))
     return letters, type(tests[0].ops[0]).__name__, code_taken_over
 
+def extract_facts(src_root):
+    """Literals and structural facts of the anchored source the hand-written model hard-codes, as an ordered list of
+    (key, value) strings (Python `ast`; a missing / reshaped construct raises: that is a broken tie, never a guess)."""
+    app = os.path.join(src_root, "biotite", "application")
+
+    def parse(rel):
+        return ast.parse(open(os.path.join(app, rel)).read())
+
+    def cls_of(tree, name):
+        c = next((n for n in tree.body if isinstance(n, ast.ClassDef) and n.name == name), None)
+        if c is None:
+            raise ValueError(f"class {name} not found")
+        return c
+
+    def fn_of(node, name):
+        f = next((n for n in node.body if isinstance(n, ast.FunctionDef) and n.name == name), None)
+        if f is None:
+            raise ValueError(f"function {name} not found in {getattr(node, 'name', 'module')}")
+        return f
+
+    def u(node):
+        return ast.unparse(node)
+
+    def defaults(fn):
+        a = fn.args
+        pos = a.posonlyargs + a.args
+        out = [f"{arg.arg}={u(d)}" for arg, d in zip(pos[len(pos) - len(a.defaults):], a.defaults)]
+        out += [f"{arg.arg}={u(d)}" for arg, d in zip(a.kwonlyargs, a.kw_defaults) if d is not None]
+        return ",".join(out)
+
+    def single_if(fn, where=None):
+        ifs = [n for n in (where if where is not None else fn.body) if isinstance(n, ast.If)]
+        return ifs
+
+    facts = []
+    add = lambda k, v: facts.append((k, str(v)))     # noqa: E731
+
+    # ---- application.py
+    t = parse("application.py")
+    enum = cls_of(t, "AppState")
+    add("AppState.members", ",".join(n.targets[0].id for n in enum.body if isinstance(n, ast.Assign)))
+    for exc in ("AppStateError", "TimeoutError", "VersionError"):
+        add(f"{exc}.bases", ",".join(u(b) for b in cls_of(t, exc).bases))
+    A = cls_of(t, "Application")
+    add("Application.join.defaults", defaults(fn_of(A, "join")))
+    loop = next((n for n in fn_of(A, "join").body if isinstance(n, ast.While)), None)
+    if loop is None:
+        raise ValueError("Application.join: poll loop not found")
+    add("Application.join.loop-test", u(loop.test))
+    tif = single_if(None, loop.body)
+    if len(tif) != 1:
+        raise ValueError("Application.join: expected one `if` in the poll loop")
+    add("Application.join.timeout-test", u(tif[0].test))
+    gas = fn_of(A, "get_app_state")
+    add("Application.get_app_state.tests", " / ".join(u(n.test) for n in ast.walk(gas) if isinstance(n, ast.If)))
+
+    # ---- localapp.py
+    t = parse("localapp.py")
+    L = cls_of(t, "LocalApp")
+    add("LocalApp.__init__.exec_dir", next((u(n.value) for n in ast.walk(fn_of(L, "__init__")) if isinstance(n, ast.Assign)
+                                            and u(n.targets[0]) == "self._exec_dir"), "?"))
+    run = fn_of(L, "run")
+    first = run.body[0]
+    if not (isinstance(first, ast.Assign) and u(first.value) == "getcwd()" and isinstance(first.targets[0], ast.Name)):
+        raise ValueError("LocalApp.run: does not start with `<local> = getcwd()`")
+    saved = first.targets[0].id
+    tr = next((n for n in run.body if isinstance(n, ast.Try)), None)
+    if tr is None or not tr.finalbody:
+        raise ValueError("LocalApp.run: try/finally not found")
+    fin = [u(n) for n in tr.finalbody]
+    add("LocalApp.run.restores", "the directory read at entry" if fin == [f"chdir({saved})"] else "; ".join(fin))
+    add("LocalApp.run.chdir-to", next((u(n.value.args[0]) for n in run.body if isinstance(n, ast.Expr) and isinstance(n.value, ast.Call)
+                                      and u(n.value.func) == "chdir"), "?"))
+    add("LocalApp.run.command", next((u(n.value) for n in ast.walk(run) if isinstance(n, ast.Assign)
+                                     and u(n.targets[0]) == "self._command"), "?"))
+    add("LocalApp.join.defaults", defaults(fn_of(L, "join")))
+    comm = [u(n) for n in ast.walk(fn_of(L, "join")) if isinstance(n, ast.Call) and isinstance(n.func, ast.Attribute)
+            and n.func.attr in ("communicate", "wait", "poll")]
+    add("LocalApp.join.process-calls", " / ".join(comm))
+    ev = fn_of(L, "evaluate")
+    eif = single_if(ev)
+    if len(eif) != 1 or not isinstance(eif[0].test, ast.Compare):
+        raise ValueError("LocalApp.evaluate: expected one `if exit_code <op> <const>`")
+    if not (len(eif[0].test.ops) == 1 and isinstance(eif[0].test.comparators[0], ast.Constant)):
+        raise ValueError("LocalApp.evaluate: exit-code test is not `<name> <op> <constant>`")
+    add("LocalApp.evaluate.fail-op", type(eif[0].test.ops[0]).__name__)
+    add("LocalApp.evaluate.fail-const", u(eif[0].test.comparators[0]))
+    add("LocalApp.evaluate.raises", next((u(n.exc.func) for n in ast.walk(eif[0]) if isinstance(n, ast.Raise) and isinstance(n.exc, ast.Call)), "?"))
+    cu = fn_of(L, "clean_up")
+    cif = single_if(cu)
+    add("LocalApp.clean_up.test", u(cif[0].test) if len(cif) == 1 else "?")
+    add("LocalApp.clean_up.action", "; ".join(u(n) for n in cif[0].body) if len(cif) == 1 else "?")
+    add("LocalApp.is_finished.calls", " / ".join(u(n) for n in ast.walk(fn_of(L, "is_finished")) if isinstance(n, ast.Call)))
+    add("get_version.defaults", defaults(fn_of(t, "get_version")))
+    ct = fn_of(t, "cleanup_tempfile")
+    add("cleanup_tempfile.tolerates", ",".join(u(h.type) for n in ast.walk(ct) if isinstance(n, ast.Try) for h in n.handlers))
+    imported = sorted(a.name for n in t.body if isinstance(n, ast.ImportFrom) and n.module == "biotite.application.application" for a in n.names)
+    add("localapp.imports-from-application", ",".join(imported))
+
+    # ---- msaapp.py
+    t = parse("msaapp.py")
+    M = cls_of(t, "MSAApp")
+    init = fn_of(M, "__init__")
+    add("MSAApp.__init__.defaults", defaults(init))
+    checks = []
+    for n in init.body:
+        if isinstance(n, (ast.If, ast.For)):
+            for r in ast.walk(n):
+                if isinstance(r, ast.Raise) and isinstance(r.exc, ast.Call):
+                    checks.append(u(r.exc.func))
+            if isinstance(n, ast.If) and len(checks) == 1 and "first" not in dict(facts):
+                pass
+    first_if = next((n for n in init.body if isinstance(n, ast.If)), None)
+    if not (first_if is not None and isinstance(first_if.test, ast.Compare) and len(first_if.test.ops) == 1):
+        raise ValueError("MSAApp.__init__: first check is not a comparison")
+    add("MSAApp.__init__.first-check", u(first_if.test.left) + " " + type(first_if.test.ops[0]).__name__ + " " + u(first_if.test.comparators[0]))
+    add("MSAApp.__init__.raises-in-order", ",".join(checks))
+    add("MSAApp.__init__.tempfile-suffixes", ",".join(next((u(k.value) for k in n.keywords if k.arg == "suffix"), "?")
+                                                     for n in ast.walk(init) if isinstance(n, ast.Call) and u(n.func) == "NamedTemporaryFile"))
+    ev = fn_of(M, "evaluate")
+    loops = [n for n in ev.body if isinstance(n, ast.For)]
+    if len(loops) != 2:
+        raise ValueError("MSAApp.evaluate: expected two for-loops (rows by index, order)")
+    add("MSAApp.evaluate.row-loop", f"for {u(loops[0].target)} in {u(loops[0].iter)}")
+    add("MSAApp.evaluate.row-lookup", next((u(n) for n in loops[0].body if isinstance(n, ast.Assign)), "?"))
+    lif = [n for n in loops[0].body if isinstance(n, ast.If)]
+    add("MSAApp.evaluate.length-check-in-loop", u(lif[0].test) if len(lif) == 1 else "MISSING")
+    add("MSAApp.evaluate.length-check-raises", next((u(r.exc.func) for n in lif for r in ast.walk(n) if isinstance(r, ast.Raise) and isinstance(r.exc, ast.Call)), "?"))
+    add("MSAApp.evaluate.order-loop", f"for {u(loops[1].target)} in {u(loops[1].iter)}: " + "; ".join(u(n) for n in loops[1].body))
+    add("MSAApp.evaluate.rows-size", next((u(n.value) for n in ev.body if isinstance(n, ast.Assign) and u(n.targets[0]) == "out_seq_str"), "?"))
+    add("MSAApp.run.names", next((u(n) for n in ast.walk(fn_of(M, "run")) if isinstance(n, ast.Assign) and isinstance(n.targets[0], ast.Subscript)
+                                  and u(n.targets[0].value) == "sequences_file"), "?"))
+    add("MSAApp.align.defaults", defaults(fn_of(M, "align")))
+    add("MSAApp.align.steps", " / ".join(u(n.value.func) if isinstance(n, ast.Expr) else "return " + u(n.value.func)
+                                         for n in fn_of(M, "align").body if isinstance(n, (ast.Expr, ast.Return)) and isinstance(n.value, ast.Call)))
+    add("MSAApp.get_matrix_file_path", next((u(n.value) for n in fn_of(M, "get_matrix_file_path").body if isinstance(n, ast.Return)), "?"))
+
+    # ---- the four MSA wrappers + tantan: defaults, option strings of the command line, version checks, evaluate guards
+    def str_consts(fn):
+        seen = []
+        for n in ast.walk(fn):
+            if isinstance(n, ast.Constant) and isinstance(n.value, str) and n.value.startswith("-") and n.value not in seen:
+                seen.append(n.value)
+        return ",".join(sorted(seen))
+    for rel, cname in (("clustalo/app.py", "ClustalOmegaApp"), ("muscle/app3.py", "MuscleApp"), ("muscle/app5.py", "Muscle5App"),
+                       ("mafft/app.py", "MafftApp"), ("tantan/app.py", "TantanApp")):
+        t = parse(rel)
+        C = cls_of(t, cname)
+        add(f"{cname}.__init__.defaults", defaults(fn_of(C, "__init__")))
+        add(f"{cname}.run.options", str_consts(fn_of(C, "run")))
+        if cname in ("MuscleApp", "Muscle5App"):
+            i = fn_of(C, "__init__")
+            add(f"{cname}.version-probe", next((u(n.value) for n in i.body if isinstance(n, ast.Assign) and "get_version" in u(n.value)), "?"))
+            vif = next((n for n in i.body if isinstance(n, ast.If)), None)
+            if not (vif is not None and isinstance(vif.test, ast.Compare) and len(vif.test.ops) == 1):
+                raise ValueError(f"{cname}.__init__: version test not found")
+            add(f"{cname}.version-test", type(vif.test.ops[0]).__name__ + " " + u(vif.test.comparators[0]))
+            add(f"{cname}.version-raises", next((u(r.exc.func) for r in ast.walk(vif) if isinstance(r, ast.Raise) and isinstance(r.exc, ast.Call)), "?"))
+            add(f"{cname}.version-before-super", str([u(n)[:18] for n in i.body].index("super().__init__(s") > i.body.index(vif)))
+        if cname == "ClustalOmegaApp":
+            add("ClustalOmegaApp.evaluate.tests", " / ".join(u(n.test) for n in fn_of(C, "evaluate").body if isinstance(n, ast.If)))
+            add("ClustalOmegaApp.evaluate.distmat", next((u(n.value.func) + " skiprows=" + next((u(k.value) for k in n.value.keywords if k.arg == "skiprows"), "?")
+                                                         for n in ast.walk(fn_of(C, "evaluate")) if isinstance(n, ast.Assign) and isinstance(n.value, ast.Call)
+                                                         and "loadtxt" in u(n.value.func)), "?"))
+            add("ClustalOmegaApp.evaluate.distmat-columns", next((u(n.value) for n in ast.walk(fn_of(C, "evaluate")) if isinstance(n, ast.Assign)
+                                                                 and isinstance(n.value, ast.Subscript) and u(n.targets[0]) == "self._dist_matrix"), "?"))
+            add("ClustalOmegaApp.get_distance_matrix.test", " / ".join(u(n.test) for n in fn_of(C, "get_distance_matrix").body if isinstance(n, ast.If)))
+            add("ClustalOmegaApp.run.tests", " / ".join(u(n.test) for n in fn_of(C, "run").body if isinstance(n, ast.If)))
+            add("ClustalOmegaApp.super-matrix", next((u(n.value) for n in fn_of(C, "__init__").body if isinstance(n, ast.Expr) and "super().__init__" in u(n.value)), "?"))
+        if cname == "MuscleApp":
+            g = fn_of(C, "set_gap_penalty")
+            top = single_if(g)
+            if len(top) != 1:
+                raise ValueError("MuscleApp.set_gap_penalty: unexpected shape")
+            branches = []
+            node = top[0]
+            while isinstance(node, ast.If):
+                body = node.body
+                kinds = ["check" if isinstance(b, ast.If) else "store" if isinstance(b, ast.Assign) else type(b).__name__.lower() for b in body]
+                tests = [u(b.test) for b in body if isinstance(b, ast.If)]
+                branches.append(f"[{u(node.test)}] " + ",".join(kinds) + " | " + " ; ".join(tests))
+                node = node.orelse[0] if len(node.orelse) == 1 and isinstance(node.orelse[0], ast.If) else None
+            add("MuscleApp.set_gap_penalty.branches", " || ".join(branches))
+            add("MuscleApp.get_guide_tree.defaults", defaults(fn_of(C, "get_guide_tree")))
+            add("MuscleApp.get_guide_tree.tests", " / ".join(u(n.test) + "->" + u(n.body[0]) for n in ast.walk(fn_of(C, "get_guide_tree")) if isinstance(n, ast.If)))
+            add("MuscleApp.run.gap-format", ",".join(sorted({u(v) for n in ast.walk(fn_of(C, "run")) if isinstance(n, ast.JoinedStr)
+                                                              for v in n.values if isinstance(v, ast.FormattedValue)})))
+            add("MuscleApp.align.defaults", defaults(fn_of(C, "align")))
+        if cname == "Muscle5App":
+            add("Muscle5App.align.defaults", defaults(fn_of(C, "align")))
+        if cname == "MafftApp":
+            pat = next((n for n in t.body if isinstance(n, ast.Assign) and u(n.targets[0]) == "_prefix_pattern"), None)
+            if pat is None or not (isinstance(pat.value, ast.Call) and pat.value.args and isinstance(pat.value.args[0], ast.Constant)):
+                raise ValueError("mafft/app.py: _prefix_pattern = re.compile(<literal>) not found")
+            add("MafftApp.prefix-pattern", pat.value.args[0].value)
+            add("MafftApp.tree-file", next((u(n.value) for n in ast.walk(fn_of(C, "__init__")) if isinstance(n, ast.Assign)
+                                           and u(n.targets[0]) == "self._out_tree_file_name"), "?"))
+            add("MafftApp.evaluate.first-step", u(fn_of(C, "evaluate").body[0]).split("\n")[0])
+        if cname == "TantanApp":
+            add("TantanApp.matrix-file-created", next((u(n.test) for n in fn_of(C, "__init__").body if isinstance(n, ast.If)
+                                                      and "NamedTemporaryFile" in u(n)), "?"))
+
+    # ---- webapp.py / blast: wait_interval, obey_rules default
+    t = parse("webapp.py")
+    W = cls_of(t, "WebApp")
+    add("WebApp.__init__.defaults", defaults(fn_of(W, "__init__")))
+    add("RuleViolationError.bases", ",".join(u(b) for b in cls_of(t, "RuleViolationError").bases))
+    t = parse("blast/webapp.py")
+    B = cls_of(t, "BlastWebApp")
+    add("BlastWebApp.wait_interval", next((u(n.value) for n in fn_of(B, "wait_interval").body if isinstance(n, ast.Return)), "?"))
+    add("BlastWebApp.__init__.defaults", defaults(fn_of(B, "__init__")))
+    runb = fn_of(B, "run")
+    order = [u(n.value.func) for n in runb.body if isinstance(n, (ast.Expr, ast.Assign)) and isinstance(n.value, ast.Call)
+             and u(n.value.func) in ("requests.get", "self._contact", "self._request")]
+    add("BlastWebApp.run.order", ",".join(order))
+    add("BlastWebApp.is_finished.order", ",".join(u(n.value.func) for n in fn_of(B, "is_finished").body if isinstance(n, (ast.Expr, ast.Assign))
+                                                  and isinstance(n.value, ast.Call) and u(n.value.func) in ("requests.get", "self._contact")))
+    # ---- util.py
+    t = parse("util.py")
+    mm = fn_of(t, "map_matrix")
+    add("map_matrix.none-test", next((u(n.test) + "->" + next((u(r.exc.func) for r in ast.walk(n) if isinstance(r, ast.Raise)), "?")
+                                      for n in mm.body if isinstance(n, ast.If)), "?"))
+    add("map_matrix.corner", next((u(n) for n in mm.body if isinstance(n, ast.Assign) and isinstance(n.targets[0], ast.Subscript)), "?"))
+    return facts
+
 
 def _lean_str(s):
     return '"' + s.replace("\\", "\\\\").replace('"', '\\"') + '"'
+
+
+def _guard(facts, key, key_const=None):
+    d = dict(facts)
+    if key_const is not None:
+        op, const = d[key], d[key_const]
+    else:
+        op, const = d[key].split()[-2:]
+    if op not in ("NotEq", "Eq", "Lt", "LtE", "Gt", "GtE") or not const.lstrip("-").isdigit():
+        raise ValueError(f"{key}: not `<op> <integer>`: {d[key]!r}")
+    return f"({_lean_str(op)}, ({const} : Int))"
 
 
 def _lean_list(xs):
@@ -401,6 +637,7 @@ def gen_lean():
     classes, polls = extract_tables(paths.SRC)
     web_consts, web_rules, web_guarded = extract_web_rules(paths.SRC)
     map_letters, map_op, map_code = extract_mapping(paths.SRC)
+    facts = extract_facts(paths.SRC)
     L = ["/- REGENERATED on every run by harness/props/c20.py from src/biotite/application/*.py. Do not edit. -/",
          "namespace BiotiteModel.Gen.C20",
          "/-- (class, direct bases). -/",
@@ -438,6 +675,14 @@ def gen_lean():
          "def proteinAlphabet : List Char := " + _lean_list("'" + ("\\'" if c == "'" else c) + "'" for c in map_letters),
          "def mapSequenceRejectOp : String := " + _lean_str(map_op),
          "def mapSequenceTakesCodeOver : Bool := " + ("true" if map_code else "false"),
+         "/-- Literals and structural facts of the anchored source that the hand-written model hard-codes (key, value). -/",
+         "def facts : List (String × String) := " + _lean_list(f"({_lean_str(k)}, {_lean_str(v)})" for k, v in facts),
+         "/-- Guards of the form `<quantity> <op> <integer constant>` as (operator, constant): the exit-code test of",
+         "`LocalApp.evaluate`, the minimum number of sequences of `MSAApp.__init__`, the version tests of MUSCLE 3 / 5. -/",
+         "def exitFailTest : String × Int := " + _guard(facts, "LocalApp.evaluate.fail-op", "LocalApp.evaluate.fail-const"),
+         "def minSequencesTest : String × Int := " + _guard(facts, "MSAApp.__init__.first-check"),
+         "def muscle3VersionRefused : String × Int := " + _guard(facts, "MuscleApp.version-test"),
+         "def muscle5VersionRefused : String × Int := " + _guard(facts, "Muscle5App.version-test"),
          "/-- Does the refusal branch of `requires_state` call `get_app_state()` / `is_finished()` (a side effect)? -/",
          "def refusalPolls : Bool := " + ("true" if polls else "false"),
          "end BiotiteModel.Gen.C20", ""]
